@@ -115,10 +115,9 @@ class CategoricalBox:
 
     @levels.setter
     def levels(self, value):
-        # The data may lack some of the levels (e.g. a new data set with a few rows), but it
-        # cannot contain values that are not among the levels.
-        if value is not None and not set(self.data).issubset(set(value)):  # pragma: no cover
-            raise ValueError("The levels beign assigned and the levels in the data differ")
+        # Whether the data fits the levels is checked where the box is used: when a design is
+        # built every value must be among the levels, while new data is allowed to contain
+        # unseen levels, which are handled according to config["EVAL_UNSEEN_CATEGORIES"].
         self._levels = value
 
 
